@@ -16,21 +16,25 @@ StringsDef == <<
   S(4, TRUE,  FALSE, FALSE, TRUE),    \*  5  r4-pre        (above every stable string but r4)
   S(2, FALSE, TRUE,  FALSE, TRUE),    \*  6  r2+build      (ties with r2)
   S(3, FALSE, FALSE, TRUE,  TRUE),    \*  7  v r3          (ties with r3)
-  S(0, FALSE, FALSE, FALSE, FALSE),   \*  8  not a version
+  S(6, FALSE, FALSE, FALSE, TRUE),    \*  8  r6, the newest of all: the version of the entry that does not validate (kind 8)
   S(4, FALSE, FALSE, FALSE, TRUE),    \*  9  r4
   S(2, FALSE, TRUE,  FALSE, TRUE),    \* 10  r2+otherbuild (in no index: exact string absent)
   S(5, FALSE, FALSE, FALSE, TRUE)     \* 11  r5            (in no index)
 >>
 
 \* dep: the entry carries `deprecated: true` - purely informational, it takes no part in loading, Get or locking
-K(vid, null, meta, url) == [vid |-> vid, null |-> null, meta |-> meta, url |-> url, dep |-> FALSE]
-KD(vid) == [vid |-> vid, null |-> FALSE, meta |-> TRUE, url |-> TRUE, dep |-> TRUE]
+\* bad: the entry does not pass chart validation - its version is not a version, or (the version being fine) its name
+\* holds a path separator, its type is unknown, a dependency is null or has an alias with disallowed characters ...
+\* (the harness picks one per spelling); such an entry is dropped at load however new its version is
+K(vid, null, meta, url) == [vid |-> vid, null |-> null, meta |-> meta, url |-> url, dep |-> FALSE, bad |-> FALSE]
+KD(vid) == [vid |-> vid, null |-> FALSE, meta |-> TRUE, url |-> TRUE, dep |-> TRUE, bad |-> FALSE]
+KB(vid) == [vid |-> vid, null |-> FALSE, meta |-> TRUE, url |-> TRUE, dep |-> FALSE, bad |-> TRUE]
 
 KindsDef == <<
   K(1, FALSE, TRUE, TRUE),   K(2, FALSE, TRUE, TRUE),  KD(3),                    \* 3: r3, marked deprecated
   K(4, FALSE, TRUE, TRUE),   K(5, FALSE, TRUE, TRUE),  K(6, FALSE, TRUE, TRUE),
   K(7, FALSE, TRUE, TRUE),
-  K(8, FALSE, TRUE, TRUE),                              \*  8 invalid version string
+  KB(8),                                                \*  8 entry that does not validate (newest version of all)
   K(8, TRUE,  FALSE, FALSE),                            \*  9 null entry        (vid unused)
   K(8, FALSE, FALSE, TRUE),                             \* 10 metadata-less entry (vid unused)
   K(9, FALSE, TRUE, FALSE),                             \* 11 r4 without URL
